@@ -15,6 +15,9 @@ LIB = {
     "la.py": "x = 'la.x'\ny = 'la.y'\n_p = 'la._p'\nclass fa:\n    pass\n",
     "lb.py": "x = 'lb.x'\nz = 'lb.z'\nclass K:\n    pass\n",
     "lc.py": "__all__ = ['w']\nw = 'lc.w'\nu = 'lc.u'\n",
+    # facades: modules that define some names and re-export others (from-import and star import)
+    "fz.py": "z0 = 'fz.z0'\nfrom pkg.s import f\nfrom lb import *\nzown = 'fz.zown'\n",
+    "pkg/fy.py": "from pkg.t import g\nfrom .la import *\nyown = 'fy.yown'\n",
     "pkg/__init__.py": "v = 'pkg.v'\n",
     "pkg/s.py": "f = 'pkg.s.f'\nx = 'pkg.s.x'\n",
     "pkg/t.py": "g = 'pkg.t.g'\ny = 'pkg.t.y'\n",
@@ -55,6 +58,14 @@ class World:
                     parts = parts[:-1]
                 attrs, all_, strs = self._attrs(src)
                 self.mods[tuple(parts)] = dict(attrs=attrs, all=all_, pkg=is_pkg, where=where, strs=strs)
+        # re-exports: names a library module takes over from another one (from m import n / from m import *);
+        # origin maps the name to the object it really is
+        for files in (LIB, EXT):
+            for path, src in files.items():
+                parts = tuple(path[:-3].split("/"))
+                if parts[-1] == "__init__":
+                    parts = parts[:-1]
+                self._reexports(parts, src)
         for name, attrs in STD.items():
             self.mods[name] = dict(attrs=list(attrs), all=None, pkg=False, where="std", strs=set())
         self.mods[("__future__",)] = dict(attrs=list(FUTURE), all=None, pkg=False, where="std", strs=set())
@@ -79,6 +90,46 @@ class World:
                 attrs.append(node.name)
         return attrs, all_, strs
 
+    def _reexports(self, mod, src):
+        me = self.mods[mod]
+        me.setdefault("origin", {})
+        me.setdefault("star_first", [])
+        pkg = mod if me["pkg"] else mod[:-1]
+        structural = []
+        for node in ast.parse(src).body:
+            if isinstance(node, ast.ImportFrom):
+                base = pkg[:len(pkg) - (node.level - 1)] if node.level else ()
+                target = tuple(base) + (tuple(node.module.split(".")) if node.module else ())
+                me.setdefault("deps", []).append(target)         # importing this module loads the target too
+                if len(node.names) == 1 and node.names[0].name == "*":
+                    names = [(n, n) for n in self.public(target)]
+                    me["star_first"].extend(n for n in self.rope_public(target) if n not in me["star_first"])
+                else:
+                    names = [(a.asname or a.name, a.name) for a in node.names]
+                    structural.extend(k for k, _ in names)
+                for k, n in names:
+                    me["origin"][k] = self.origin(target, n)
+                    if n in self.mods[target]["strs"]:
+                        me["strs"].add(k)
+            elif isinstance(node, ast.Assign):
+                structural.extend(t.id for t in node.targets if isinstance(t, ast.Name))
+            elif isinstance(node, (ast.FunctionDef, ast.ClassDef)):
+                structural.append(node.name)
+        if me["origin"]:
+            every = []
+            for n in structural + me["star_first"]:
+                if n not in every:
+                    every.append(n)
+            me["attrs"] = every
+            # rope iterates a module's attributes with the names of its star imports first
+            me["rope_order"] = [n for n in me["star_first"] + structural if not n.startswith("_")]
+            me["rope_order"] = list(dict.fromkeys(me["rope_order"]))
+
+    def origin(self, mod, name):
+        """the (module, name) an attribute really is, following re-exports"""
+        o = self.mods[mod].get("origin", {}).get(name)
+        return o if o is not None else (mod, name)
+
     def public(self, mod):
         """what `from mod import *` binds in CPython"""
         m = self.mods[mod]
@@ -89,6 +140,8 @@ class World:
     def rope_public(self, mod):
         """what rope's FromImport.get_imported_primaries yields for a star import: every attribute of
         the module not starting with an underscore (it does not read the target's __all__)"""
+        if "rope_order" in self.mods[mod]:
+            return list(self.mods[mod]["rope_order"])
         return [a for a in self.mods[mod]["attrs"] if not a.startswith("_")]
 
     def kind(self, mod):
@@ -181,9 +234,13 @@ class Resolver:
         for i in range(1, len(mod) + 1):
             if mod[:i] not in self.w.mods:
                 raise Invalid("no module %s" % ".".join(mod[:i]))
+            fresh = mod[:i] not in self.loaded
             self.loaded.add(mod[:i])
             for extra in STD_AUTOLOAD.get(mod[:i], ()):
                 self.loaded.add(extra)
+            if fresh:
+                for dep in self.w.mods[mod[:i]].get("deps", ()):
+                    self._load(dep)
 
     def _bind(self, idx, name, obj):
         self.env[name] = obj
@@ -209,7 +266,8 @@ class Resolver:
                     pairs = info[3]
                 for n, alias in pairs:
                     if n in self.w.mods[m]["attrs"]:
-                        obj = ("val", m, (n,))
+                        om, on = self.w.origin(m, n)
+                        obj = ("val", om, (on,))
                     elif m + (n,) in self.w.mods:
                         self._load(m + (n,))
                         obj = ("mod", m + (n,))
@@ -231,7 +289,8 @@ class Resolver:
                     obj = ("val", m, (a,))
                     continue
                 if a in self.w.mods[m]["attrs"] and not (m + (a,) in self.w.mods and m + (a,) in self.loaded):
-                    obj = ("val", m, (a,))
+                    om, on = self.w.origin(m, a)
+                    obj = ("val", om, (on,))
                 elif m + (a,) in self.w.mods:
                     if m + (a,) in self.loaded:
                         obj = ("mod", m + (a,))
@@ -382,11 +441,12 @@ NORMAL_POOL = [
 ]
 FROM_MODS = [("la",), ("lb",), ("lc",), ("pkg",), ("pkg", "s"), ("pkg", "t"), ("ext1",), ("os",), ("os", "path"),
              ("pkg", "sub", "deep"), ("pkg", "sub", "deep", "mod"), ("pkg", "la"), ("pkg", "sub", "s"), ("pkg", "sub"),
-             ("pkg", "types")]
+             ("pkg", "types"), ("fz",), ("pkg", "fy")]
+FACADES = [("fz",), ("pkg", "fy")]
 # siblings whose module text, written relatively, is also the name of a top-level or standard module
 CLASH_MODS = [("pkg", "la"), ("pkg", "types"), ("pkg", "sub", "s")]
 STAR_MODS = [("la",), ("lb",), ("pkg", "s"), ("pkg", "t"), ("ext1",), ("pkg", "la"), ("pkg", "sub", "s"),
-             ("pkg", "types"), ("lc",)]
+             ("pkg", "types"), ("fz",), ("pkg", "fy"), ("lc",)]
 ALIASES = ["q", "x", "y", "s", "u"]
 
 
@@ -409,6 +469,8 @@ def gen_info(rng, place, cfg):
         mod = rng.choice(STAR_MODS if cfg["lc_star"] else STAR_MODS[:-1])
         if place != "top" and rng.random() < 0.3:
             mod = rng.choice(CLASH_MODS)
+        if rng.random() < 0.25:
+            mod = rng.choice(FACADES)                      # a module that re-exports what it offers
         forms = relative_forms(place, mod)
         m, lvl = rng.choice(forms) if rng.random() < 0.6 else forms[0]
         if not m:
